@@ -13,8 +13,9 @@ Open Scope string_scope.
 
 Record case := {
   c_base : C19.case;
-  c_reader_id : bool;               (* observed: the masking ContentReader delivered exactly the file's bytes (glue mask_id; files with
-                                       pint control comments are not cases) *)
+  c_reader_id : bool;               (* observed: yaml.v3 returns the same forest for the bytes that went through pint's masking
+                                       ContentReader as for the raw bytes rulefmt.Parse decodes (glue; by C01_mask_id the reader is the
+                                       identity on files without pint control comments, and files with such comments are not cases) *)
   c_pint_blocked : option bool;     (* observed: some Bug/Fatal problem of a modelled reporter (strict, in-process); None = not comparable *)
   c_prom_accepts : option bool      (* observed: rulefmt.Parse returned no error; None = outside the modelled fragment *)
 }.
